@@ -181,12 +181,17 @@ def import_object(name: str):
         raise ValueError(f"Unexpected import path format: {name}")
     name_module, name_object = name.rsplit(".", 1)
     try:
-        parent = __import__(name_module, fromlist=[name_object])
-    except ModuleNotFoundError as ex:
-        if "." not in name_module:
-            raise ex
-        name_module, name_object1 = name_module.rsplit(".", 1)
-        parent = getattr(__import__(name_module, fromlist=[name_object1]), name_object1)
+        try:
+            parent = __import__(name_module, fromlist=[name_object])
+        except ModuleNotFoundError as ex:
+            if "." not in name_module:
+                raise ex
+            name_module, name_object1 = name_module.rsplit(".", 1)
+            parent = getattr(__import__(name_module, fromlist=[name_object1]), name_object1)
+    except (ImportError, AttributeError):
+        raise
+    except Exception as ex:  # the module exists but fails while it is executed (broken plugin, syntax error)
+        raise ImportError(f"Unable to import {name_module}: {type(ex).__name__}: {ex}") from ex
     return getattr(parent, name_object)
 
 
